@@ -40,6 +40,10 @@ add("C13",
     "Coq theorems over a hand-written model of evaluate_payload_template and the intrinsic functions (pinned by digest): literal members are copied verbatim at any depth; a template (and any intrinsic expression) fails only with States.IntrinsicFailure or a path failure; arguments rendered from the grammar - atoms, strings with commas/parentheses/escaped apostrophes, calls nested to any depth - are split back exactly; StringSplit and ArrayPartition satisfy their relational specifications for all inputs. ~1300 programs per run (every function, nested calls, malformed calls, random templates) are evaluated by the real code and compared in Coq with the model and with independent relational checkers (ArrayRange, ArrayUnique, ArrayContains, ArrayGetItem, ArrayLength, MathAdd, JsonMerge, literal-copy/rename of templates); purity and hash-seed independence are checked by re-running in a second process.",
     "Trusted: Coq kernel + vm_compute; pins of the hand-modelled functions; Hash, UUID, MathRandom, StringToJson, Base64Decode and exotic float notations are outside the model (only their dispatch and error class are exercised); Format and the remaining functions are tied by differential runs, not by a spec theorem.",
     "Coq proof (induction on templates, scanner invariants) + differential correspondence with Coq-evaluated relational oracles", "DESIGN.md section 6 (C13)")
+add("C01",
+    "An executable big-step semantics of the States Language (Spec/AslSem.v: all eight state types, Retry with per-retrier counters, Catch, nesting) is the specification; Coq theorems fix what it says (Pass applies InputPath, Parameters, Result, ResultPath into the raw input, OutputPath in that order; Fail reports its Error; Succeed ends; Choice follows the rules of C14; fan-out results in order). Every run executes ~270 (quick) / ~1500 (thorough) random machines plus a directed corpus on the real engine (canonical FIFO schedule, task behaviour fixed per (function, payload, attempt)) and compares status and output with the semantics inside Coq. That the event-driven engine refines the semantics for ALL machines is not proved (correspondence only): partial.",
+    "Trusted: Coq kernel + vm_compute; the data plane inside the semantics is the model validated by C12-C14; harness/sim.py; Cause texts not compared; when two branches of one fan-out fail with different errors the reported error is left open. Known findings F16 (in-band Error), F22 (nested fan-out with a failure).",
+    "Executable Coq semantics + theorems about it; real executions compared with it in Coq (refinement by correspondence, not proved)", "DESIGN.md section 6 (C01)")
 DONE = [c["property_id"] for c in checks]
 m = {
  "version": 1,
